@@ -595,6 +595,13 @@ impl Name {
             return Ok(name);
         }
 
+        // RFC 1035 5.1: a free standing @ denotes the current origin
+        if local == "@" {
+            if let Some(origin) = origin {
+                return Ok(origin.clone());
+            }
+        }
+
         // TODO: it would be nice to relocate this to Label, but that is hard because the label boundary can only be detected after processing escapes...
         // evaluate all characters
         for ch in local.chars() {
